@@ -249,6 +249,9 @@ def needs_space(a, b):
     wa = bool(re.match(r'[A-Za-z_0-9]', a[-1])) if a else False
     wb = bool(re.match(r'[A-Za-z_0-9]', b[0])) if b else False
     if wa and wb:
+        # a NUMBER ends where its digits end: `1SELECT`, `1x` are two tokens (a word after a word is not)
+        if re.fullmatch(r'[0-9]+', a) and re.match(r'[A-Za-z_]', b[0]):
+            return False
         return True
     if a[-1].isdigit() and b == '.':
         return True
